@@ -53,7 +53,7 @@ impl<'a, 'b> SchemerContext<'a, 'b> {
 
         for (k, v) in mt.vs.iter() {
             let schema = self.convert_to_schema(v, None)?;
-            let ty = if v.has_optional() {
+            let ty = if v.has_optional() && !v.is_any() {
                 schema.optional()
             } else {
                 schema.required()
@@ -66,7 +66,7 @@ impl<'a, 'b> SchemerContext<'a, 'b> {
         if let Some(it) = &mt.indexed_properties {
             let k = self.convert_to_schema(&it.key, None)?;
             let schema = self.convert_to_schema(&it.value, None)?;
-            let ty = if it.value.has_optional() {
+            let ty = if it.value.has_optional() && !it.value.is_any() {
                 schema.optional()
             } else {
                 schema.required()
@@ -270,6 +270,12 @@ impl<'a, 'b> SchemerContext<'a, 'b> {
     fn convert_to_schema_no_cache(&mut self, ty: &SemType) -> anyhow::Result<Runtype> {
         if ty.all == 0 && ty.subtype_data.is_empty() {
             return Ok(Runtype::never());
+        }
+        // the top type (any / unknown) is not the union of the kinds the engine tells apart: it also
+        // holds what has no tag of its own (functions, symbols), and as a property type it does not
+        // make the property optional
+        if ty.is_any() {
+            return Ok(Runtype::any());
         }
 
         let mut acc = BTreeSet::new();
